@@ -17,7 +17,13 @@ import traceback
 
 ROOT = os.path.dirname(os.path.dirname(os.path.abspath(__file__)))
 sys.path.insert(0, ROOT)
-OUT = os.path.join(ROOT, "out")
+# the tree under verification: /repo, or a scratch worktree when evaluating a seeded change
+REPO = os.path.abspath(os.environ.get("VERIF_REPO", "/repo"))
+os.environ["PYVC_REPO"] = REPO
+os.environ["VERIF_REPO"] = REPO
+ALT = REPO != "/repo"
+OUT = os.path.join(ROOT, "out") if not ALT else os.path.join(ROOT, "out", "alt-" + hashlib.blake2b(REPO.encode(), digest_size=4).hexdigest())
+os.environ["PYVC_OUT"] = OUT
 REPLAYS = os.path.join(OUT, "replays")
 VENV_PY = "/venv/bin/python"
 
@@ -43,7 +49,7 @@ ASSUMPTIONS = {
 def sh(cmd, timeout, env=None):
     e = dict(os.environ)
     e.update(env or {})
-    e["PYTHONPATH"] = ROOT + os.pathsep + e.get("PYTHONPATH", "")
+    e["PYTHONPATH"] = ROOT + os.pathsep + (REPO + os.pathsep if ALT else "") + e.get("PYTHONPATH", "")
     return subprocess.run(cmd, capture_output=True, text=True, timeout=timeout, env=e, cwd=ROOT)
 
 
@@ -146,7 +152,7 @@ def frames_into(out):
     from pyvc import frames
 
     t0 = time.time()
-    sites, problems = frames.analyse_repo(os.environ.get("PYVC_REPO", "/repo"))
+    sites, problems = frames.analyse_repo(REPO)
     for p in problems:
         out["drift"].append(("frames", p))
     for s in sites:
@@ -197,6 +203,25 @@ def tier_b(prop, cfg, tier, seed):
     return d
 
 
+def tier_n(prop, cfg, tier):
+    """the sidecar contracts of this property (proved and trusted) and the class invariants,
+    evaluated natively while the repository's tests and a corpus of operations run"""
+    mods = cfg.get("sidecars")
+    if not mods:
+        return None
+    os.makedirs(OUT, exist_ok=True)
+    outfile = os.path.join(OUT, f"native-{prop}-{tier}.json")
+    if os.path.exists(outfile):
+        os.remove(outfile)
+    try:
+        p = sh([VENV_PY, "-m", "bounded.native", outfile, tier] + list(mods), 900)
+    except subprocess.TimeoutExpired:
+        return dict(error="native contract phase exceeded 900s")
+    if not os.path.exists(outfile):
+        return dict(error=f"native contract phase crashed (exit {p.returncode}): {(p.stdout + p.stderr)[-1500:]}")
+    return json.load(open(outfile))
+
+
 def main():
     ap = argparse.ArgumentParser()
     ap.add_argument("prop")
@@ -244,9 +269,8 @@ def main():
         base = cfg.get("min_obligations", 0)
         if P["obligations"] < base and not P["drift"]:
             broken.append(f"tier P generated {P['obligations']} obligations, fewer than the {base} recorded for the unchanged tree")
-        for fkey, pf in P["per_function"].items():
-            if pf["status"] == "proved" and pf["obligations"] and pf["reachable_returns"] == 0 and fkey in P["functions"]:
-                warnings.append(f"WARNING vacuity: no return path of {fkey} shown reachable under its requires")
+        P["_vacuity_candidates"] = [fkey for fkey, pf in P["per_function"].items()
+                                    if pf["status"] == "proved" and pf["obligations"] and pf["reachable_returns"] == 0 and fkey in P["functions"]]
     # ------------------------------------------------------------------ tier B
     try:
         B = tier_b(prop, cfg, tier, seed)
@@ -255,6 +279,20 @@ def main():
     if B and B.get("error"):
         broken.append(B["error"])
         B = None
+    N = None
+    try:
+        N = tier_n(prop, cfg, tier)
+    except Exception:  # noqa: BLE001
+        broken.append("native contract phase crashed:\n" + traceback.format_exc())
+    if N and N.get("error"):
+        broken.append(N["error"])
+        N = None
+    if N and N.get("test_suite_exit") not in (0, None):
+        warnings.append(f"WARNING the repository's own test-suite did not pass with the contract wrappers installed (pytest exit {N['test_suite_exit']})")
+    if P:
+        for fkey in P.get("_vacuity_candidates", []):
+            if not (N and N["checked"].get(fkey, 0) > 0):
+                warnings.append(f"WARNING vacuity: no return path of {fkey} shown reachable under its requires (no symbolic cover model, no native call that satisfied the requires)")
     # ------------------------------------------------------------------ refuted obligations
     if P:
         for fkey, kind, o in P["sat"]:
@@ -288,6 +326,13 @@ def main():
             path = write_replay(prop, doc)
             kf = finding_for(findings, prop, v["check"], v.get("events", []))
             violations.append((f"{v['check']}: {v['what']}", path, kf))
+    if N:
+        for v in N.get("violations", []):
+            doc = dict(property=prop, kind="native", contract=v["contract"], check="native-contract", violation=v["kind"], clause=v["clause"], detail=v["detail"], sidecars=cfg["sidecars"],
+                       what="contract evaluated natively on the real function while the repository's tests / the operation corpus ran")
+            path = write_replay(prop, doc)
+            kf = finding_for(findings, prop, "native-contract:" + v["contract"], [v["kind"]])
+            violations.append((f"native contract {v['contract']}: {v['kind']}: {v['clause']} {v['detail'][:200]}", path, kf))
     # ------------------------------------------------------------------ report
     for w in warnings:
         print(w)
@@ -325,6 +370,9 @@ def main():
         cov.update(evaluations=B["evaluations"], distinct_nontrivial=B["distinct_nontrivial"], rule=B.get("rule", ""),
                    bounds=B.get("bounds"), exhaustive=bool(B.get("exhaustive")), tierB_counters=B.get("counters"), tierB_wall_s=B.get("wall_s"))
         samples += B.get("samples", [])
+    if N:
+        cov.update(native_contract_calls=N["hits"], native_contract_calls_checked=N["checked"], native_invariant_checks=N.get("invariant_checks"),
+                   native_workloads=N["workloads"], native_never_called=[k for k, v in N["hits"].items() if not v], native_unresolved=N.get("unresolved"))
     cov["samples"] = samples or ["(no sample)"]
     cov["explanation"] = cfg["explanation"]
     cov["known_findings_seen"] = sorted(known_seen)
@@ -334,11 +382,15 @@ def main():
     ev = dict(property_id=prop, tier=tier, seed=seed, level=level, coverage=cov,
               assumptions=[ASSUMPTIONS[x] for x in cfg.get("assumptions", [])] + cfg.get("extra_assumptions", []),
               wall_s=round(time.time() - t0, 2), violations=len(new))
-    os.makedirs(os.path.join(ROOT, "evidence"), exist_ok=True)
-    with open(os.path.join(ROOT, "evidence", f"{prop}.json"), "w") as f:
+    evdir = os.path.join(ROOT, "evidence") if not ALT else os.path.join(OUT, "evidence")
+    os.makedirs(evdir, exist_ok=True)
+    with open(os.path.join(evdir, f"{prop}.json"), "w") as f:
         json.dump(ev, f, indent=1, default=str)
     if P:
         print(f"tier P: {P['discharged']}/{P['obligations']} obligations discharged over {len(P['functions'])} functions + {len(P['lemmas'])} lemmas, solver {P['solver_s']}s, wall {P['wall_s']}s")
+    if N:
+        print(f"native contracts: {sum(N['checked'].values())} checked calls of {len([k for k, v in N['hits'].items() if v])}/{len(N['hits'])} contracted functions ({sum(N['hits'].values())} calls seen), "
+              f"{sum((N.get('invariant_checks') or {}).values())} constructor invariant checks, {len(N['violations'])} failures, wall {N['wall_s']}s")
     if B:
         print(f"tier B: {B['evaluations']} evaluations, {B['distinct_nontrivial']} distinct non-trivial, {len(B.get('violations', []))} contract/oracle failures, wall {B.get('wall_s')}s")
     if broken:
